@@ -55,7 +55,7 @@ class FuncContract:
                  loops=None, at_yield=(), modifies=(), generator=False,
                  ghosts=None, cls=None, assumed=False, note="",
                  on_abandon=(), locals_=None, reads_async=False,
-                 verify=True, pure=False, at_call=None, sig=None, stream_out=False, yields=None, summary=None, defs=(), decreases=None, property=False, at_diverge=(), fs_root=None, fs_effects=None):
+                 verify=True, pure=False, at_call=None, sig=None, stream_out=False, yields=None, summary=None, defs=(), decreases=None, property=False, at_diverge=(), fs_root=None, fs_effects=None, foreign_base=False):
         self.module = module
         self.qualname = qualname
         self.props = list(props)
@@ -97,6 +97,9 @@ class FuncContract:
         self.is_property = property
         self.fs_root = fs_root
         self.fs_effects = fs_effects
+        # caller-supplied callables may raise BaseException subclasses that
+        # are not Exceptions (KeyboardInterrupt, SystemExit, ...)
+        self.foreign_base = foreign_base
         self.at_diverge = _clauses(at_diverge, props)
         self.at_call = {k: _clauses(v, props) for k, v in (at_call or {}).items()}
 
